@@ -261,14 +261,14 @@ theorem fx_binopV_fx_rel {op : BinOp} (hp : Plain s) (ha : fxRel s.resolution a 
     by_cases hk : (a.fxNumK && b.fxNumK) = true
     · simpa using hk
     · simp [hk] at hh
-  have cmpCase : ∀ (c : Cmp), (a.isLc = true → c ≠ .lt ∧ c ≠ .gt) → a.fxNumK = true → b.fxNumK = true →
+  have cmpCase : ∀ (c : Cmp), a.fxNumK = true → b.fxNumK = true →
       cmpV c a b s = .ok (v, s') →
       ∀ qa qb, wa.num? s.resolution = some qa → wb.num? s.resolution = some qb →
       Same s s' ∧ ∃ w, FxRes.val (FxV.sbool (fxCmpQ c qa qb)) = .val w ∧ fxRel s.resolution v w = true := by
-    intro c hx ka kb hc qa qb na nb
+    intro c ka kb hc qa qb na nb
     obtain ⟨qa', qb', na', nb', ea, eb⟩ := gen ka kb
     rw [na] at na'; rw [nb] at nb'; cases na'; cases nb'
-    obtain ⟨sm, r, rfl, vr⟩ := fx_cmpV_fxp_val hp hf hx hc
+    obtain ⟨sm, r, rfl, vr⟩ := fx_cmpV_fxp_val hp hf hc
     exact ⟨sm, _, rfl, fxRel_sbool (by rw [vr, fx_cmp c ea eb]) (fxCmpQ_01 _ _ _)⟩
   cases op
   case add =>
@@ -337,49 +337,39 @@ theorem fx_binopV_fx_rel {op : BinOp} (hp : Plain s) (ha : fxRel s.resolution a 
     exact ⟨by rw [v1]; exact fx_floordiv ea eb hpos, by rw [v2]; exact fx_mod ea eb hpos⟩
   case lt =>
     simp only at hex
-    have hl : a.isLc = false := by
-      by_cases hl : a.isLc = true
-      · simp [hl] at hex
-      · simpa using hl
-    simp only [hl, Bool.false_eq_true, if_false] at hex
     obtain ⟨ka, kb⟩ := numK hex
     obtain ⟨qa, qb, na, nb, -, -⟩ := gen ka kb
-    have := cmpCase .lt (fun hh => by simp [hl] at hh) ka kb h qa qb na nb
+    have := cmpCase .lt ka kb h qa qb na nb
     simpa only [fxBinFx, na, nb, fxArithQ] using this
   case gt =>
     simp only at hex
-    have hl : a.isLc = false := by
-      by_cases hl : a.isLc = true
-      · simp [hl] at hex
-      · simpa using hl
-    simp only [hl, Bool.false_eq_true, if_false] at hex
     obtain ⟨ka, kb⟩ := numK hex
     obtain ⟨qa, qb, na, nb, -, -⟩ := gen ka kb
-    have := cmpCase .gt (fun hh => by simp [hl] at hh) ka kb h qa qb na nb
+    have := cmpCase .gt ka kb h qa qb na nb
     simpa only [fxBinFx, na, nb, fxArithQ] using this
   case le =>
     simp only at hex
     obtain ⟨ka, kb⟩ := numK hex
     obtain ⟨qa, qb, na, nb, -, -⟩ := gen ka kb
-    have := cmpCase .le (fun _ => ⟨by decide, by decide⟩) ka kb h qa qb na nb
+    have := cmpCase .le ka kb h qa qb na nb
     simpa only [fxBinFx, na, nb, fxArithQ] using this
   case ge =>
     simp only at hex
     obtain ⟨ka, kb⟩ := numK hex
     obtain ⟨qa, qb, na, nb, -, -⟩ := gen ka kb
-    have := cmpCase .ge (fun _ => ⟨by decide, by decide⟩) ka kb h qa qb na nb
+    have := cmpCase .ge ka kb h qa qb na nb
     simpa only [fxBinFx, na, nb, fxArithQ] using this
   case eq =>
     simp only at hex
     obtain ⟨ka, kb⟩ := numK hex
     obtain ⟨qa, qb, na, nb, -, -⟩ := gen ka kb
-    have := cmpCase .eq (fun _ => ⟨by decide, by decide⟩) ka kb h qa qb na nb
+    have := cmpCase .eq ka kb h qa qb na nb
     simpa only [fxBinFx, na, nb, fxArithQ] using this
   case ne =>
     simp only at hex
     obtain ⟨ka, kb⟩ := numK hex
     obtain ⟨qa, qb, na, nb, -, -⟩ := gen ka kb
-    have := cmpCase .ne (fun _ => ⟨by decide, by decide⟩) ka kb h qa qb na nb
+    have := cmpCase .ne ka kb h qa qb na nb
     simpa only [fxBinFx, na, nb, fxArithQ] using this
   case lshift =>
     cases a <;> cases b <;> simp only [reduceCtorEq] at hex
@@ -393,11 +383,10 @@ theorem fx_binopV_fx_rel {op : BinOp} (hp : Plain s) (ha : fxRel s.resolution a 
   case rshift =>
     cases a <;> cases b <;> simp only [reduceCtorEq] at hex
     rename_i x n
-    have hn' : ¬ n < 0 := by
-      intro hn; simp [hn] at hex
     rw [fxRel_fxp_iff] at ha; obtain ⟨q, rfl, hq⟩ := ha
     rw [fxRel_int_iff] at hb; subst hb
-    obtain ⟨sm, z, rfl, vz⟩ := fx_rshiftV_fxp_val (by omega) hp.ign h
+    obtain ⟨sm, hn, z, rfl, vz⟩ := fx_rshiftV_fxp_val hp.ign h
+    have hn' : ¬ n < 0 := by omega
     refine ⟨sm, .fx (fxFloor s.resolution (q / 2 ^ n.toNat)), by simp only [fxBinFx, hn', if_false], ?_⟩
     rw [fxRel_fxp_iff]; exact ⟨_, rfl, by rw [vz]; exact fx_rshift _ hq⟩
   case pow => simp at hex
@@ -900,9 +889,19 @@ theorem fx_ifThenElse_rel {same : Bool} {c t f : Val} {wc wt wf : FxV} (hc : fxR
           · simp [hk] at hex
         have nt := fxRel_num hk.1 ht
         have nf := fxRel_num hk.2 hf
-        obtain ⟨sm, z, rfl, vz⟩ := fx_ite_int_val hb hk.1 hk.2 hsm h
-        refine ⟨sm, _, by simp only [nt, nf]; rfl, ?_⟩
-        rw [fxRel_lc_iff, vz]
+        obtain ⟨sm, z, rfl, vz, hzb⟩ := fx_ite_int_val hb hk.1 hk.2 hsm h
+        have hsb : (wt.isSBool && wf.isSBool) = bothLcb t f := by
+          cases t <;> cases wt <;> simp [fxRel] at ht <;>
+            cases f <;> cases wf <;> simp [fxRel] at hf <;> rfl
+        simp only [nt, nf, hsb]
+        by_cases hbb : bothLcb t f = true
+        · simp only [hbb, if_true]
+          refine ⟨sm, _, rfl, ?_⟩
+          rw [fxRel_lcb_iff, vz]
+          exact ⟨rfl, vz ▸ hzb hbb⟩
+        · simp only [hbb, Bool.false_eq_true, if_false]
+          refine ⟨sm, _, rfl, ?_⟩
+          rw [fxRel_lc_iff, vz]
     all_goals
       unfold ifThenElse at h
       simp only [hsm, Bool.or_self, Bool.false_eq_true, if_false] at h
